@@ -173,3 +173,8 @@ func TestC05Enum(t *testing.T) { Enum05(t) }
 func TestC07Enum(t *testing.T) { Enum07(t) }
 func TestC08Enum(t *testing.T) { Enum08(t) }
 func TestC11Enum(t *testing.T) { Enum11(t) }
+
+func TestC03EnumHist(t *testing.T) { EnumHist03(t) }
+func TestC04EnumHist(t *testing.T) { EnumHist04(t) }
+func TestC05EnumHist(t *testing.T) { EnumHist05(t) }
+func TestC19EnumHist(t *testing.T) { EnumHist19(t) }
